@@ -1,6 +1,27 @@
+import os
+
+
+def _overlay_extra(cid, tier):
+    """merge_performer.go of the tree under test with the size of the raw-copy pieces of WriteOriginal made settable
+    (one line rewritten; default value = the original expression). If the line is not there, nothing is rewritten and
+    the small-piece cases run with the unmodified size (counted by the harness as copy_piece_not_settable)."""
+    import checklib
+    src = os.path.join(checklib.REPO, "engine/immutable/merge_performer.go")
+    text = open(src).read()
+    old = "limit := uint32(fileops.DefaultBufferSize * 2)"
+    if text.count(old) != 1:
+        checklib.log("C03: WriteOriginal piece-size line not found; small-piece cases run with the original size")
+        return {}
+    out = os.path.join(checklib.build_dir(cid), "merge_performer.go")
+    with open(out, "w") as fh:
+        fh.write(text.replace(old, "limit := uint32(VerifCopyPiece(fileops.DefaultBufferSize * 2))"))
+    return {src: out}
+
+
 SPEC = dict(
     pkg="engine",
-    hooks=["engine", "lib/fileops"],
+    hooks=["engine", "engine/immutable", "lib/fileops"],
+    overlay_extra=_overlay_extra,
     test="TestVerifC03",
     level="fault_enumeration",
     workers=16,
@@ -10,7 +31,8 @@ SPEC = dict(
          "out-of-order merge, full out-of-order merge} runs under the lib/fileops recorder; (a) completion: dump equals the dump before; "
          "(b) a crash image before EVERY mutation and after every torn write prefix is reopened with the real recovery: dump equals the "
          "dump before the reorganisation, a second reopen changes neither answers nor loaded files; (c) thorough: crash images of the "
-         "recovery pass itself; evaluations = completed runs + recoveries; distinct_nontrivial = distinct (case, crash image)",
+         "recovery pass itself; the out-of-order merges additionally run with the raw chunk copy of untouched series cut into 24-byte "
+         "pieces (instead of 512 KiB) so that the multi-piece copy loop is reached by small chunks; evaluations = completed runs + recoveries; distinct_nontrivial = distinct (case, crash image)",
     assumptions=["process-crash model (no loss of un-synced blocks)", "2 WAL partitions, TSSTORE engine, level-compaction group size 2, 2-row segments",
                  "leftover .init/.tmp files that are ignored by the loader are counted in the evidence, not reported"],
 )
